@@ -125,7 +125,10 @@ func TestVerifC09(t *testing.T) {
 			if rp.ContentType == "audio" && rp.SampleDur == 0 {
 				continue
 			}
-			for k, n := range []int64{0, 1, N, 2*N + 1, 1000*N + N/2} {
+			// the last index has a decode time beyond 2^32 ticks (64-bit tfdt: the box grows and data offsets move)
+			loopTicks := a.Ref.Dur()
+			farN := (int64(uint64(1)<<32/loopTicks)+2)*N + 1
+			for k, n := range []int64{0, 1, N, 2*N + 1, 1000*N + N/2, farN} {
 				_, vs, ve := a.LiveSeg(a.Ref, n)
 				dMS := int64((ve - vs) * 1000 / a.Ref.Timescale)
 				// sample duration of this rep in ms (ceil)
